@@ -514,6 +514,23 @@ func Stub(name string, outs ...interface{}) error {
 	if os.Getenv("ZZVERIF_DEBUG") != "" {
 		fmt.Fprintf(os.Stderr, "zzverif stub %s -> %s\n", name, r.Kind)
 	}
+	if sc, ok := popScript(name); ok && (len(sc.outs) == len(outs) || sc.kind == "err") && sc.kind == r.Kind {
+		fits := len(sc.outs) <= len(outs)
+		for i := range sc.outs {
+			if !fits || sc.outs[i] == nil || !reflect.TypeOf(sc.outs[i]).AssignableTo(reflect.TypeOf(outs[i]).Elem()) {
+				fits = false
+			}
+		}
+		if fits {
+			for i := range sc.outs {
+				reflect.ValueOf(outs[i]).Elem().Set(reflect.ValueOf(sc.outs[i]))
+			}
+			if r.Kind == "err" {
+				return errors.New("zzverif stub: " + name + " failed")
+			}
+			return nil
+		}
+	}
 	for i, o := range outs {
 		if i < len(r.Outs) {
 			ov := reflect.ValueOf(o).Elem()
@@ -677,9 +694,30 @@ func Intn(n int) int {
 }
 
 // ScriptStub fixes what the named stub (suffix of its full name) returns on its next unscripted call:
-// kind "val" or "err", outs in the order of the stub's outputs.  Natively a no-op: the symbolic run
-// logs what the stub returned, scripted or not, and the replay pops that log.
-func ScriptStub(short, kind string, outs ...interface{}) {}
+// kind "val" or "err", outs in the order of the stub's outputs.  The symbolic run logs what the stub
+// returned, scripted or not, and the replay pops that log.
+func ScriptStub(short, kind string, outs ...interface{}) {
+	scriptQ[short] = append(scriptQ[short], scriptRec{kind, outs})
+}
+
+type scriptRec struct {
+	kind string
+	outs []interface{}
+}
+
+// natively the scripted objects themselves are handed out (when they fit the stub's outputs), so that
+// whatever the harness built with the real code (tickets, keys) reaches the code under test unchanged
+var scriptQ = map[string][]scriptRec{}
+
+func popScript(name string) (scriptRec, bool) {
+	for k, q := range scriptQ {
+		if strings.HasSuffix(name, k) && len(q) > 0 {
+			scriptQ[k] = q[1:]
+			return q[0], true
+		}
+	}
+	return scriptRec{}, false
+}
 
 // Par runs the closures as concurrent threads.  Under gosym every interleaving at the lock
 // operations is explored; natively the recorded schedule is followed (see Yield).
